@@ -224,7 +224,7 @@ class Fn:
         raise Unsupported("unknown name %s" % name)
 
     def var(self, n):
-        return self.spec.get("rename", {}).get(n, n if n not in ("S", "O", "end", "at", "in", "fix", "cofix", "len", "mod") else n + "_")
+        return self.spec.get("rename", {}).get(n, n if n not in ("S", "O", "end", "at", "in", "fix", "cofix", "len", "mod", "list") else n + "_")
 
     # ------------------------------------------------------------ patterns
     def pat(self, p, env, t=None):
@@ -337,10 +337,15 @@ class Fn:
                 piece = fmt[i + 1:j]
                 flush()
                 name, _, spec_ = piece.partition(":")
-                val = self.ex(args.pop(0), env) if name == "" else self.var(name) if name in env else None
+                a0 = args.pop(0) if name == "" else None
+                val = self.ex(a0, env) if name == "" else self.var(name) if name in env else None
                 if val is None:
                     raise Unsupported("format! captures the unknown name %s" % name)
-                if spec_ == "":
+                if spec_ == "" and a0 is not None and self.ty(a0, env) in INTS:
+                    if not self.spec.get("format_int"):
+                        raise Unsupported("format! of an integer")
+                    parts.append(self.apply(self.spec["format_int"], [val]))
+                elif spec_ == "":
                     parts.append(val)
                 elif spec_ in self.spec["format_bytes"]:
                     parts.append(self.apply(self.spec["format_bytes"][spec_], [val]))
@@ -349,6 +354,9 @@ class Fn:
                 i = j + 1
             elif c == "\\" and i + 1 < len(fmt) and fmt[i + 1] == "0":
                 lit += "\0"
+                i += 2
+            elif c == "\\" and i + 1 < len(fmt) and fmt[i + 1] in ('"', "\\"):
+                lit += fmt[i + 1]
                 i += 2
             else:
                 lit += c
@@ -2467,6 +2475,31 @@ def functions():
     out.append(("table_is_empty", "src/signature.rs SignatureTable::is_empty", None,
                 t_table("is_empty", "g_table_is_empty", "(tbl : list (Z * list Z) * Delta.signature digest)", "bool", [("self", "Self")])))
 
+    def t_push_delete_request():
+        src = read("src/bin/copia/incremental.rs")
+        params, ret, body = R.find_fn(src, "apply_remote_deletes", None)
+        if [n for n, _ in params] != ["dir", "host", "remote_root", "local_root", "dels"]:
+            raise Unsupported("signature of apply_remote_deletes is %s" % params)
+        arms = [a for st in body[1] if st[0] == "expr" and st[1][0] == "match" and st[1][1] == ("path", ["dir"]) for a in st[1][2]]
+        push = [a for a in arms if a[0] == ("ppath", ["Dir", "Push"], None)]
+        if len(push) != 1 or push[0][2][0] != "block":
+            raise Unsupported("apply_remote_deletes: `match dir { .. Dir::Push => { .. } }` not found")
+        ss = []
+        it = iter(list(push[0][2][1]))
+        for st in it:
+            if st[0] == "expr" and st[1] == ("path", ["use"]):
+                next(it, None)
+                continue
+            ss.append(st)
+        if len(ss) != 3 or ss[0][0] != "let" or ss[0][1] != ("pbind", "list") or ss[1][0] != "for" or ss[2][0] != "let" or ss[2][1] != ("pbind", "remote_cmd"):
+            raise Unsupported("apply_remote_deletes (push): expected `let mut list = String::new(); for rel in dels { .. }; let remote_cmd = format!(..);` before the ssh call")
+        spec = dict(format_bytes={"02x": "hex2 {0}"}, format_int="dec {0}", calls={"String::new": ("(@nil Z)", "String"), ".display": ("{0}", "str")})
+        fn = Fn(spec)
+        env = {"remote_root": "str", "dels": "Vec<PathBuf>"}
+        text = fn.block(("block", ss, ("tuple", [("path", ["list"]), ("path", ["remote_cmd"])])), env, Ctx(val=(lambda x: x), ret=(lambda x: x), fall=None))
+        return "Definition g_push_delete_request (remote_root : list Z) (dels : list (list Z)) : list Z * list Z :=\n  %s." % text
+    out.append(("push_delete_request", "src/bin/copia/incremental.rs apply_remote_deletes (push arm: list and command)", None, t_push_delete_request))
+
     def t_run_remote():
         src = read("src/bin/copia/incremental.rs")
         params, ret, body = R.find_fn(src, "run_remote", None)
@@ -2565,6 +2598,7 @@ GROUPS = {
     "OneWayRun": ("Model.Glob Model.Plan Model.OneWay", "onewayrun", ["run_local"]),
     "ListingParse": ("Model.Glob Model.Plan Model.Listing", "listingparse", ["parse_listing"]),
     "OneWayPrint": ("Model.Glob Model.Plan Model.OneWay", "onewayprint", ["print_plan", "report"]),
+    "PushDelete": ("Model.Glob Model.Plan Model.Listing Model.ShellQuote", "plainz", ["push_delete_request"]),
     "RemoteRun": ("Model.Glob Model.Plan Model.OneWay", "remoterun", ["run_remote"]),
     "Archive": ("Model.Archive", "archive", ["archive_load"]),
     "Plan": ("Model.Glob Model.Plan", False, ["needs_transfer", "glob_match", "is_excluded", "build_plan"]),
@@ -2745,6 +2779,8 @@ def main():
                      "Fixpoint al_find (k : Z) (m : list (Z * list Z)) : option (list Z) :=\n  match m with [] => None | (k', vs) :: r => if k' =? k then Some vs else al_find k r end.\n"
                      "Definition nth_blk (l : list (bsig digest)) (i : Z) : bsig digest := nth (Z.to_nat i) l (Build_bsig digest 0 0 (H [])).\n\n"
                      + "\n".join(texts) + "End WithDigest.\n")
+        elif digest == "plainz":
+            body += "\n" + "\n".join(texts)
         elif digest == "archivesys":
             body = (HEADER % (group, imports)) + "\nSection WithFs.\nVariable path_exists : apath -> bool.   (* path.exists() *)\n\n" + "\n".join(texts) + "End WithFs.\n"
         elif digest == "onewaysys":
